@@ -76,3 +76,10 @@ type NodeKey = collection.VerifNodeKey
 func (k *KnnCollection) Trace(lat, lon float64) (nodes []NodeKey, ids []string, dists []float64) {
 	return k.c.VerifNearbyTrace(lat, lon)
 }
+
+// ItemDist is the distance NEARBY reports for an object with the given
+// rectangle (geodeticDistAlgo with item == true), in metres. NearbyDist is
+// the key of a node rectangle (item == false).
+func ItemDist(lat, lon, minLat, minLon, maxLat, maxLon float64) float64 {
+	return collection.VerifNearbyItemDist(lat, lon, minLat, minLon, maxLat, maxLon)
+}
